@@ -5,6 +5,12 @@ V = "/verif"
 props = [json.loads(l) for l in open(V + "/properties.jsonl")]
 
 CLAIMED = {
+ "C11": dict(
+    text="TABLE / call-graph / ORDER rules: the checksummed classes are enumerated from the checksum fields of the on-disk record types and rewrite_metadata_checksums() must reach a storer of each (call-site-sensitive callbacks) or must dirty-mark the owner whose flush routine does; "
+         "each inode kind is selected by its own request bit and every seed-changing arm (metadata_csum on/off, stale csum_seed, UUID change) requests all bits; with a rewrite requested no path of main() reaches the close without performing it (error exits excepted); "
+         "every FEATURE_ON/OFF/CHANGED arm names a bit allowed by ok_features/clear_ok_features and every allowed bit has a handler arm or is a listed flag-only feature; seed-changing arms are dominated by check_fsck_needed(). "
+         "Decides coverage and table agreement for every request sequence; not inode-size growth, journal or quota creation.",
+    ref="§4 C11", technique="static analysis: record-layout enumeration, call-graph reachability with call-site-sensitive callbacks, initialiser-table agreement, gated reachability over clang CFGs"),
  "C03": dict(
     text="GUARD/ORDER rules over the recovery core as built for e2fsck and for debugfs, and a SIBLING rule over the two front-ends: filesystem writes only in PASS_REPLAY, revoke scan only in PASS_REVOKE, end of log decided only in PASS_SCAN, "
          "passes in order each only after the previous succeeded (path-sensitive); each replay write gated by !test_revoke(block, transaction being replayed) and a verifying tag checksum; the revoke table keeps the newest revoking transaction and "
